@@ -26,7 +26,7 @@ theorem N2_SPATIAL_MODULI__DS_DEGL (hc : c * c = 2) (h2 : (2:K) ≠ 0)
     upper (lamSM (M3.ofTens [g 0, g 1, g 2, g 3, g 4]) (M3.ofMandel c [s 0, s 1, s 2, s 3]) (plane l0 l1 l2 l3 l4) (M3.ofMandel c (act (Gen.N2_SPATIAL_MODULI__DS_DEGL_r c c3 fn D (tensv F0) g s) (M3.mandel2 c (symm (plane l0 l1 l2 l3 l4))))))
       = upper (lamS (M3.ofTens [g 0, g 1, g 2, g 3, g 4]) (M3.ofMandel c [s 0, s 1, s 2, s 3]) (plane l0 l1 l2 l3 l4) (M3.ofMandel c (act (rowsOf D i4 i4) (M3.mandel2 c (dE (M3.ofTens [g 0, g 1, g 2, g 3, g 4]) (plane l0 l1 l2 l3 l4)))))) := by
   have hc0 : c ≠ 0 := c_ne_zero hc h2
-  c23_rat0 hc
+  c23_rat0c hc
 
 /-- `DTAU_DF ← DS_DF` (2D): along every variation `δF = L F` the converted operator, applied to the
 rate of its kinematic variable, gives the rate of the Kirchhoff stress that reproduces the same Lie derivative of
@@ -45,7 +45,7 @@ theorem N2_DTAU_DF__DS_DF (hc : c * c = 2) (h2 : (2:K) ≠ 0)
   c23_unfold
   generalize_ne hd0 => e0 he0
   (try (repeat' apply And.intro))
-  all_goals (first | rfl | (field_simp <;> (try simp only [← he0]) <;> c23_field hc))
+  all_goals (first | rfl | (field_simp <;> (try simp only [← he0]) <;> c23_fieldc hc))
 
 /-- `C_TAU_JAUMANN ← DTAU_DF` (2D): along every variation `δF = L F` with symmetric `L` the converted operator, applied to the
 rate of its kinematic variable, gives the rate of the Jaumann rate of the Kirchhoff stress that reproduces the same Lie derivative of
@@ -55,7 +55,7 @@ theorem N2_C_TAU_JAUMANN__DTAU_DF (hc : c * c = 2) (h2 : (2:K) ≠ 0)
     upper (lamJ (plane f0 f1 f2 f3 f4) (M3.ofMandel c [s 0, s 1, s 2, s 3]) (plane l0 l1 l2 l3 l3) (M3.ofMandel c (act (Gen.N2_C_TAU_JAUMANN__DTAU_DF_r c c3 fn D (tensv F0) (tensv (plane f0 f1 f2 f3 f4)) s) (M3.mandel2 c (symm (plane l0 l1 l2 l3 l3))))))
       = upper (lamTau (plane f0 f1 f2 f3 f4) (M3.ofMandel c [s 0, s 1, s 2, s 3]) (plane l0 l1 l2 l3 l3) (M3.ofMandel c (act (rowsOf D i4 i5) (M3.tens2 ((plane l0 l1 l2 l3 l3) * (plane f0 f1 f2 f3 f4)))))) := by
   have hc0 : c ≠ 0 := c_ne_zero hc h2
-  c23_rat0 hc
+  c23_rat0c hc
 
 /-- `DSIG_DDF ← DSIG_DF` (2D): along every variation `δF = L F` the converted operator, applied to the
 rate of its kinematic variable, gives the rate of the Cauchy stress that reproduces the same Lie derivative of
@@ -67,7 +67,7 @@ theorem N2_DSIG_DDF__DSIG_DF (hc : c * c = 2) (h2 : (2:K) ≠ 0)
   have key : (act (Gen.N2_DSIG_DDF__DSIG_DF_r c c3 fn D (tensv (plane g0 g1 g2 g3 g4)) (tensv ((plane d0 d1 d2 d3 d4) * (plane g0 g1 g2 g3 g4))) s) (M3.tens2 ((plane l0 l1 l2 l3 l4) * (plane d0 d1 d2 d3 d4))))
       = (act (rowsOf D i4 i5) (M3.tens2 ((plane l0 l1 l2 l3 l4) * ((plane d0 d1 d2 d3 d4) * (plane g0 g1 g2 g3 g4))))) := by
     have hc0 : c ≠ 0 := c_ne_zero hc h2
-    c23_rat0 hc
+    c23_rat0c hc
   rw [key]
 
 /-- `ABAQUS ← SPATIAL_MODULI` (2D): along every variation `δF = L F` the converted operator, applied to the
@@ -79,7 +79,7 @@ theorem N2_ABAQUS__SPATIAL_MODULI (hc : c * c = 2) (h2 : (2:K) ≠ 0)
       = upper (lamSM (plane f0 f1 f2 f3 f4) (M3.ofMandel c [s 0, s 1, s 2, s 3]) (plane l0 l1 l2 l3 l4) (M3.ofMandel c (act (rowsOf D i4 i4) (M3.mandel2 c (symm (plane l0 l1 l2 l3 l4)))))) := by
   have hc0 : c ≠ 0 := c_ne_zero hc h2
   obtain ⟨h1, h2'⟩ := plane_det_ne hJ
-  c23_rat0 hc
+  c23_rat0c hc
 
 /-- `ABAQUS ← C_TAU_JAUMANN` (2D): along every variation `δF = L F` the converted operator, applied to the
 rate of its kinematic variable, gives the rate of the Jaumann rate of the Kirchhoff stress / J that reproduces the same Lie derivative of
@@ -90,7 +90,7 @@ theorem N2_ABAQUS__C_TAU_JAUMANN (hc : c * c = 2) (h2 : (2:K) ≠ 0)
       = upper (lamJ (plane f0 f1 f2 f3 f4) (M3.ofMandel c [s 0, s 1, s 2, s 3]) (plane l0 l1 l2 l3 l4) (M3.ofMandel c (act (rowsOf D i4 i4) (M3.mandel2 c (symm (plane l0 l1 l2 l3 l4)))))) := by
   have hc0 : c ≠ 0 := c_ne_zero hc h2
   obtain ⟨h1, h2'⟩ := plane_det_ne hJ
-  c23_rat0 hc
+  c23_rat0c hc
 
 /-- `DS_DC ← DS_DEGL` (2D): along every variation `δF = L F` the converted operator, applied to the
 rate of its kinematic variable, gives the rate of the second Piola–Kirchhoff stress that reproduces the same Lie derivative of
@@ -102,7 +102,7 @@ theorem N2_DS_DC__DS_DEGL (hc : c * c = 2) (h2 : (2:K) ≠ 0)
   have key : (act (Gen.N2_DS_DC__DS_DEGL_r c c3 fn D (tensv F0) (tensv (plane f0 f1 f2 f3 f4)) s) (M3.mandel2 c (dC (plane f0 f1 f2 f3 f4) (plane l0 l1 l2 l3 l4))))
       = (act (rowsOf D i4 i4) (M3.mandel2 c (dE (plane f0 f1 f2 f3 f4) (plane l0 l1 l2 l3 l4)))) := by
     have hc0 : c ≠ 0 := c_ne_zero hc h2
-    c23_rat0 hc
+    c23_rat0c hc
   rw [key]
 
 end TfelVerif.C23.PropsN2d
